@@ -78,8 +78,8 @@ def random_case(prop, rng, tier):
         # a callable filter (applied as a predicate); the keyword filters are not used then
         return {'tasks': tasks, 'filters': [], 'source': rng.choice(['tasks', 'roots', 'children0']), 'action': 'query', 'floats': False,
                 'key': rng.choice([['id_mod', rng.randrange(2, 4)], ['has', rng.choice(['prio', 'tag'])], ['leaf'], ['const', rng.random() < 0.5]])}
-    return {'tasks': tasks, 'filters': fs, 'source': rng.choice(['tasks', 'roots', 'children0']), 'action': rng.choice(['query', 'query', 'bulk', 'remove']),
-            'floats': rng.random() < 0.4}
+    return {'tasks': tasks, 'filters': fs, 'source': rng.choice(['tasks', 'roots', 'children0', 'tasks', 'preds']),
+            'action': rng.choice(['query', 'query', 'bulk', 'remove']), 'floats': rng.random() < 0.4}
 
 
 def build(case):
@@ -116,7 +116,19 @@ def snapshot(w, objs):
 
 def execute(prop, case):
     w, objs = build(case)
-    src = w.tasks if case['source'] == 'tasks' else (w.roots if case['source'] == 'roots' else max(objs, key=lambda o: len(o.children)).children)
+    if case['source'] == 'preds':
+        # a list that is not a view of one tree: the predecessors of a free-standing task, drawn from this WBS and from a second WBS
+        # built from the same case - different task objects sharing ids, in one list
+        from pjplan import Task
+        w_b, objs_b = build(case)
+        for o in objs_b[::2]:
+            o.mark2 = 'second'
+        hub = Task(99999, 'hub')
+        hub.predecessors = [x for pair in zip(objs, objs_b) for x in pair][:len(objs) + 2]
+        objs = objs + objs_b
+        src = hub.predecessors
+    else:
+        src = w.tasks if case['source'] == 'tasks' else (w.roots if case['source'] == 'roots' else max(objs, key=lambda o: len(o.children)).children)
     src_list = list(src)
     pos = {id(o): i for i, o in enumerate(src_list)}
     uid = {id(o): u for u, o in enumerate(objs)}
@@ -156,7 +168,7 @@ def execute(prop, case):
     if matched is not None and case['action'] == 'bulk':
         res.mark = 'M'
         rec['extra'] = all(('mark' in o.__dict__) == (any(o is m for m in matched)) for o in objs)
-    elif matched is not None and case['action'] == 'remove' and case['source'] != 'children0':
+    elif matched is not None and case['action'] == 'remove' and case['source'] in ('tasks', 'roots'):
         if case['source'] == 'tasks':
             ret = w.remove_all(**kwargs)
         else:
@@ -226,7 +238,7 @@ def projection(prop):
 def rule(prop):
     return ('random task populations (attributes present / None / absent, numbers and strings, properties estimate/spent, id, parent_id, an '
             'attribute whose own name ends in a suffix fragment) x 1-3 keyword filters over all 12 kinds incl. type-confused values; '
-            'sources: WBS.tasks, roots, children; a third of the cases continue with bulk assignment or remove_all on the result; '
+            'sources: WBS.tasks, roots, children, the predecessor list of a free-standing task that mixes tasks of two WBSs sharing ids; a third of the cases continue with bulk assignment or remove_all on the result; '
             'non-trivial = a proper non-empty subset is selected; distinct = distinct (population, filters)')
 
 
